@@ -1651,7 +1651,12 @@ EnsureSizeAux(uint32 size, bool setNumItems, uint32 extraPreallocs, ItemType ** 
             newQueue[i] = QQ_PlunderItem(GetItemAtUnchecked(i));  // we know that (_itemCount < size)
       }
 
-      if (setNumItems) _itemCount = size;
+      if (setNumItems)
+      {
+         // slots of a freshly allocated array of trivially-typed items hold garbage, so give the ones we are about to expose their default value
+         if (IsPerItemClearNecessary() == false) {const ItemType & defaultItem = GetDefaultItem(); for (uint32 i=_itemCount; i<size; i++) newQueue[i] = defaultItem;}
+         _itemCount = size;
+      }
       _headIndex = 0;
       _tailIndex = _itemCount-1;
 
@@ -1675,7 +1680,8 @@ EnsureSizeAux(uint32 size, bool setNumItems, uint32 extraPreallocs, ItemType ** 
       // Force ourselves to contain exactly the required number of items
       if (size > _itemCount)
       {
-         // We can do this quickly because the "new" items are already initialized properly
+         // The "new" items are already in their default state if we clear items as we remove them; if we don't, we need to do that now
+         if (IsPerItemClearNecessary() == false) {const ItemType & defaultItem = GetDefaultItem(); for (uint32 i=_itemCount; i<size; i++) _queue[InternalizeIndex(i)] = defaultItem;}
          _tailIndex = PrevIndex(InternalizeIndex(size));
          _itemCount = size;
       }
